@@ -2,6 +2,7 @@
   C15 — Geonum cos/sin/tan/adj/opp carry signed trig values on the quarter-turn lattice.
 -/
 import GeonumModel.Lemmas.GradeAngle
+import GeonumModel.Lemmas.Exact
 
 set_option linter.unusedSectionVars false
 set_option linter.unusedVariables false
@@ -69,8 +70,24 @@ theorem cos_sin_lattice {a : Angle F} (ha : a.Inv) :
 
 end S
 
-/-! PARTIAL (E-tier, not yet proved): cos² + sin² = 1, |tan t| and period π, odd grade of tan, adj/opp = Cartesian components.
-    Explored by `oracle.C15.*`. -/
+/-! ### E-tier: exact arithmetic -/
+section E
+open GeonumModel.Exact
+
+/-- (E) the magnitudes are `|cos T|` and `|sin T|` of the total angle, so `cos² + sin² = 1` exactly -/
+theorem cos_sin_values_real (a : Angle ℝ) :
+    (Geonum.cos a).mag = |Real.cos (T a)| ∧ (Geonum.sin a).mag = |Real.sin (T a)| ∧
+    (Geonum.cos a).mag ^ 2 + (Geonum.sin a).mag ^ 2 = 1 := by
+  have hc : (Geonum.cos a).mag = |Real.cos (T a)| := by rw [← cos_gradeAngle]; rfl
+  have hs : (Geonum.sin a).mag = |Real.sin (T a)| := by rw [← sin_gradeAngle]; rfl
+  refine ⟨hc, hs, ?_⟩
+  rw [hc, hs, sq_abs, sq_abs]
+  have := Real.sin_sq_add_cos_sq (T a)
+  linarith
+
+end E
+
+/-! PARTIAL (not yet proved): |tan t| and period π, odd grade of tan, adj/opp as Cartesian components. Explored by `oracle.C15.*`. -/
 
 example {F : Type} [FloatSpec F] : (⟨zero, 7⟩ : Angle F).Inv := inv_zero 7
 
